@@ -15,7 +15,10 @@ package main
 import (
 	"fmt"
 	"strings"
+	"sync"
 )
+
+var instMu sync.Mutex
 
 const maxInstPerQuant = 24
 const maxInstTotal = 240
@@ -77,9 +80,37 @@ func collectHyps(t *Term, guard *Term, out *[]qhyp) {
 // (whatever heap version E is), otherwise the array term itself.
 func arrayKey(arr *Term) string {
 	if arr.op == "select" && len(arr.args) == 2 {
-		return arr.args[1].s
+		return expandAliases(arr.args[1].s)
 	}
-	return arr.s
+	return expandAliases(arr.s)
+}
+
+// Loaded values are bound to names (ld!7 = (select H f x)); hypotheses written over the heap
+// terms and reads made through the bound names denote the same arrays. Keys and offsets are
+// compared after the names are replaced by their definitions. The table is per goroutine-local
+// call of instantiate (set and cleared there under instMu).
+var instAliases map[string]string
+
+func expandAliases(s string) string {
+	if instAliases == nil || !strings.Contains(s, "ld") {
+		return s
+	}
+	for round := 0; round < 4; round++ {
+		changed := false
+		for name, def := range instAliases {
+			if strings.Contains(s, name) {
+				ns := replaceToken(s, name, def)
+				if ns != s {
+					s = ns
+					changed = true
+				}
+			}
+		}
+		if !changed {
+			break
+		}
+	}
+	return s
 }
 
 // indexPatterns lists (array key, offset) of the reads in body whose index is v or (+ off v).
@@ -93,9 +124,11 @@ func indexPatterns(body *Term, v string, out map[string]string) {
 			out[arrayKey(body.args[0])+"\x00"] = ""
 		} else if idx.op == "+" && len(idx.args) == 2 {
 			if idx.args[1].s == v && !strings.Contains(idx.args[0].s, "!q") {
-				out[arrayKey(body.args[0])+"\x00"+idx.args[0].s] = idx.args[0].s
+				o := expandAliases(idx.args[0].s)
+				out[arrayKey(body.args[0])+"\x00"+o] = o
 			} else if idx.args[0].s == v && !strings.Contains(idx.args[1].s, "!q") {
-				out[arrayKey(body.args[0])+"\x00"+idx.args[1].s] = idx.args[1].s
+				o := expandAliases(idx.args[1].s)
+				out[arrayKey(body.args[0])+"\x00"+o] = o
 			}
 		}
 	}
@@ -114,7 +147,7 @@ func groundReads(t *Term, out map[string]map[string]bool) {
 		if out[k] == nil {
 			out[k] = map[string]bool{}
 		}
-		out[k][t.args[1].s] = true
+		out[k][expandAliases(t.args[1].s)] = true
 	}
 	for _, a := range t.args {
 		groundReads(a, out)
@@ -145,6 +178,15 @@ func substTree(t *Term, name, by string) *Term {
 // instantiate returns extra SMT commands (declarations and asserted instances) for an obligation
 // and the possibly skolemised goal text.
 func instantiate(entries []PCEntry, goal *Term) (extra []string, goalText string) {
+	instMu.Lock()
+	defer instMu.Unlock()
+	instAliases = map[string]string{}
+	defer func() { instAliases = nil }()
+	for _, e := range entries {
+		if e.Kind == 1 && e.T != nil && e.T.op == "=" && len(e.T.args) == 2 && len(e.T.args[0].args) == 0 && strings.HasPrefix(e.T.args[0].s, "ld") && len(e.T.args[1].s) < 400 {
+			instAliases[e.T.args[0].s] = e.T.args[1].s
+		}
+	}
 	n := 0
 	// skolemise the goal (structure-preserving)
 	g := goal
